@@ -63,6 +63,26 @@ def same(got, exp, path="result", atol=0.0):
     return None
 
 
+def show_arg(a):
+    if callable(a):
+        return a.__name__
+    if isinstance(a, (list, tuple)) and any(isinstance(x, numpy.ndarray) for x in a):
+        return "[" + ", ".join(show_arg(x) for x in a) + "]"
+    return repr(numpy.asarray(a).tolist())
+
+
+def flat_values(a):
+    """All scalar entries of an argument (arrays, or lists of arrays of different shapes)."""
+    if callable(a):
+        return []
+    if isinstance(a, (list, tuple)) and any(isinstance(x, numpy.ndarray) for x in a):
+        return [v for x in a for v in flat_values(x)]
+    try:
+        return numpy.asarray(a).ravel().tolist()
+    except ValueError:
+        return []
+
+
 def run(report, tier, seed):
     from harness.translators import const_tr
     tr_ok = True
@@ -124,7 +144,7 @@ def run(report, tier, seed):
                 continue
             rargs = tuple(unwrap(a) for a in args)
             rkw = {k: unwrap(v) for k, v in kw.items()}
-            desc = f"{name}({', '.join(repr(numpy.asarray(a).tolist()) if not callable(a) else a.__name__ for a in rargs)}" \
+            desc = f"{name}({', '.join(show_arg(a) for a in rargs)}" \
                    f"{''.join(f', {k}={v!r}' for k, v in rkw.items())})"[:300]
             dist[name] = dist.get(name, 0) + 1
             try:
@@ -152,12 +172,12 @@ def run(report, tier, seed):
                 continue
             # float rounding: numpy's own result is only accurate to a few ulps of the operand scale (det goes through an
             # LU factorisation, sums/products cancel), so a float result may differ from it by that much
-            fl = [abs(float(v)) for a in rargs if not callable(a) for v in numpy.asarray(a).ravel().tolist()
+            fl = [abs(float(v)) for a in rargs for v in flat_values(a)
                   if isinstance(v, float) and v == v and abs(v) != float("inf")]
             scale = max([1.0] + fl)
             power = numpy.asarray(rargs[0]).shape[-1] if name == "det" and numpy.asarray(rargs[0]).ndim >= 2 else 2
             d = same(got, exp, atol=(1e-13 * len(fl) * scale ** power) if fl else 0.0)
-            vals = numpy.asarray(rargs[0] if not callable(rargs[0]) else rargs[-1]).ravel().tolist() if rargs else []
+            vals = flat_values(rargs[0] if not callable(rargs[0]) else rargs[-1]) if rargs else []
             if len(set(map(str, vals))) < len(vals) or any(isinstance(v, (int, float)) and v < 0 for v in vals):
                 nontrivial.add((name, desc))
             if d:
